@@ -490,7 +490,12 @@ class spec_class:
                 ) or inspect.isdatadescriptor(attr_value)
             attr_spec.do_not_copy = do_not_copy
             attr_spec.owner = owner
-            return self._finalise_attr_spec(spec_cls, attr_spec, helpers)
+            return self._finalise_attr_spec(
+                spec_cls,
+                attr_spec,
+                # (attributes that are only known as the key have no helpers)
+                helpers=helpers and inherited.helper_methods is not None,
+            )
         if isinstance(attr_value, (Attr, dataclasses.Field)):
             setattr(  # Set default on class.
                 spec_cls,
